@@ -176,8 +176,9 @@ Definition type_of_b (bs : list N) : res N :=
   end.
 
 (* ---- traverse_check_string ----
-   The VecDeque of container offsets is a pair (front, back): `pop_front` takes from `front`, `push_back` appends to
-   `back`, and when `front` is used up `back` takes its place — the same sequence of offsets as the code's single queue.
+   The VecDeque of container offsets is a pair (front, back): `pop_front` takes from `front`, `push_back` puts on
+   `back` (kept newest first), and when `front` is used up the reversed `back` takes its place — the same sequence of
+   offsets as the code's single queue.
    Every offset pushed is at least 8 above the offset of the container it was found in, so after k such swaps every
    queued offset is >= 8k and the first header read fails once that is beyond the buffer: S (length bs) swaps are more
    than can happen.  The `for _ in 0..size` loop runs on fuel S (length bs) like the loops of Walk.v (each iteration
@@ -192,7 +193,7 @@ Fixpoint tcs_entries (fuel : nat) (func : list N -> bool) (bs : list N) (i size 
     | Some e =>
         let ty := je_type e in
         let len := je_len e in
-        if ty =? CONTAINER_TAG then tcs_entries f func bs (i + 1) size (joff + 4) (voff + len) (back ++ [voff])
+        if ty =? CONTAINER_TAG then tcs_entries f func bs (i + 1) size (joff + 4) (voff + len) (voff :: back)
         else if ty =? STRING_TAG then
           match slice bs voff len with
           | None => Panic                                 (* &value[val_offset..val_offset + val_length] *)
@@ -237,7 +238,7 @@ Fixpoint tcs_run (fuel : nat) (func : list N -> bool) (bs : list N) (front : lis
       do r <- tcs_front func bs front [];
       match r with
       | inl b => Ok b
-      | inr back => tcs_run f func bs back
+      | inr back => tcs_run f func bs (rev_append back [])      (* = rev back, in linear time *)
       end
   end end.
 
